@@ -3,7 +3,8 @@ CONSTANTS
  Confs <- ShapeConfs
  MaxCloses = 3
  MaxOps = 2
- KeyMode = "clean"
+ KeyMode = "resolve"
+ LockRefTgt = TRUE
  Eager = TRUE
 SPECIFICATION Spec
 INVARIANTS TypeOK LocksNonNeg LocksExact MarkIsReach FallbackPresent CopyKeeps
